@@ -58,6 +58,27 @@ def parse_qvec(tok):
     return [Fraction(t) for t in tok.split(",")]
 
 
+def parse_qs(tok):
+    """token `re` or `re~im` of an element re + im*sqrt(m) of Q(sqrt m) -> (Fraction, Fraction)"""
+    if "~" in tok:
+        a, b = tok.split("~")
+        return (Fraction(a), Fraction(b))
+    return (Fraction(tok), Fraction(0))
+
+
+def parse_qsvec(tok):
+    return [] if tok == "-" else [parse_qs(t) for t in tok.split(",")]
+
+
+def parse_qsmat(tok):
+    return [parse_qsvec(r) for r in tok.split(";")]
+
+
+def qs_float(pair, m):
+    import math
+    return float(pair[0]) + float(pair[1]) * math.sqrt(m)
+
+
 def close(y, r, scale=1.0, tol=1e-9):
     """Implementation float `y` against exact model value `r`."""
     return abs(float(y) - float(r)) <= tol * max(1.0, scale)
@@ -214,13 +235,7 @@ def lean_build_and_audit(modules, audit_file, tier, extra_scan_files=()):
     return st
 
 
-def run_driver(driver, lines, timeout=3000):
-    """Pipe request lines to the Lean driver; return the list of reply lines.
-
-    Replies are `<id> ok <payload>` / `<id> err <kind>`; returned as a dict id -> (status, payload).
-    """
-    if not lines:
-        return {}
+def _run_driver_chunk(driver, lines, timeout):
     data = "\n".join(lines) + "\n"
     p = subprocess.run(
         ["lake", "env", "lean", "--run", driver],
@@ -234,6 +249,27 @@ def run_driver(driver, lines, timeout=3000):
         if len(parts) < 2:
             continue
         out[parts[0]] = (parts[1], parts[2] if len(parts) > 2 else "")
+    return out
+
+
+def run_driver(driver, lines, timeout=3000, jobs=None):
+    """Pipe request lines to the Lean driver; return dict id -> (status, payload).
+
+    Replies are `<id> ok <payload>` / `<id> err <kind>`.  The driver is stateless per line, so
+    large batches are split (round-robin, which balances cost) over parallel driver processes.
+    """
+    if not lines:
+        return {}
+    jobs = jobs or int(os.environ.get("VERIF_JOBS", "16"))
+    n = max(1, min(jobs, len(lines) // 40))
+    if n == 1:
+        return _run_driver_chunk(driver, lines, timeout)
+    from concurrent.futures import ThreadPoolExecutor
+    chunks = [lines[i::n] for i in range(n)]
+    out = {}
+    with ThreadPoolExecutor(max_workers=n) as ex:
+        for res in ex.map(lambda c: _run_driver_chunk(driver, c, timeout), chunks):
+            out.update(res)
     return out
 
 
@@ -463,6 +499,10 @@ def run_check(mod, tier, seed, replay=None):
         "leanchecker": lean.leanchecker,
         "notes": ctx.notes,
     }
+    if discharged == 0:
+        # the schema reserves obligations/discharged for runs in which something was discharged
+        cov["obligations_attempted"] = cov.pop("obligations")
+        cov["discharged_count"] = cov.pop("discharged")
     cov.update(ctx.extra)
     ev = {
         "property_id": prop,
